@@ -22,8 +22,8 @@ import (
 	apiv1 "github.com/attestantio/go-eth2-client/api/v1"
 	"github.com/attestantio/go-eth2-client/spec/altair"
 	"github.com/attestantio/go-eth2-client/spec/phase0"
-	nullmetrics "github.com/attestantio/vouch/services/metrics/null"
 	standardcontroller "github.com/attestantio/vouch/services/controller/standard"
+	nullmetrics "github.com/attestantio/vouch/services/metrics/null"
 	"github.com/attestantio/vouch/services/synccommitteeaggregator"
 	standardaggregator "github.com/attestantio/vouch/services/synccommitteeaggregator/standard"
 	standardmessenger "github.com/attestantio/vouch/services/synccommitteemessenger/standard"
@@ -541,13 +541,13 @@ type rootCallObs struct {
 }
 
 type observed struct {
-	Query    *uint64    `json:"query"`
-	Jobs     []jobObs   `json:"jobs"`
-	SubUntil *uint64    `json:"sub_until"`
-	Subs     []Duty     `json:"subs"`
-	Fires    []fireObs  `json:"fires"`
-	Agg      *[]string  `json:"agg"`
-	Panic    string     `json:"panic,omitempty"`
+	Query    *uint64   `json:"query"`
+	Jobs     []jobObs  `json:"jobs"`
+	SubUntil *uint64   `json:"sub_until"`
+	Subs     []Duty    `json:"subs"`
+	Fires    []fireObs `json:"fires"`
+	Agg      *[]string `json:"agg"`
+	Panic    string    `json:"panic,omitempty"`
 	aggObs   *[]contribObs
 }
 
@@ -947,113 +947,153 @@ func gen(r *Rand) Input {
 		in.Tags = append(in.Tags, s)
 	}
 
-	// period and fork
-	var period uint64
-	switch r.Intn(10) {
-	case 0, 1, 2, 3:
-		period = 0
-	case 4, 5:
-		period = 1
-	default:
-		period = uint64(r.Range(2, 60))
-	}
-	switch r.Intn(4) {
-	case 0, 1:
-		p.Fork = 0
-	case 2:
-		// fork inside or at the start of the period
-		p.Fork = period*p.EPP + uint64(r.Intn(int(p.EPP)))
-	default:
-		p.Fork = uint64(r.Intn(int((period+2)*p.EPP) + 1))
-	}
-	in.Par = p
-	first := period * p.EPP // first epoch of the period, unclamped
-	cl := first
-	if cl < p.Fork {
-		cl = p.Fork
-	}
-	next := (period + 1) * p.EPP
-	F, E := cl*p.SPE, next*p.SPE
+	// period, fork, call and clock: mostly calls with a non-empty window (an empty window or a call
+	// before the fork is kept one time in five), so that most cases reach the messages
+	var lo, hi uint64
+	var ok bool
+	p0 := p
+	for attempt := 0; ; attempt++ {
+		in.Tags = nil
+		p = p0
+		// period and fork
+		var period uint64
+		switch r.Intn(10) {
+		case 0, 1, 2, 3:
+			period = 0
+		case 4, 5:
+			period = 1
+		default:
+			period = uint64(r.Range(2, 60))
+		}
+		switch r.Intn(4) {
+		case 0, 1:
+			p.Fork = 0
+		case 2:
+			// fork inside or at the start of the period
+			p.Fork = period*p.EPP + uint64(r.Intn(int(p.EPP)))
+		default:
+			p.Fork = uint64(r.Intn(int((period+2)*p.EPP) + 1))
+		}
+		in.Par = p
+		first := period * p.EPP // first epoch of the period, unclamped
+		cl := first
+		if cl < p.Fork {
+			cl = p.Fork
+		}
+		next := (period + 1) * p.EPP
+		F, E := cl*p.SPE, next*p.SPE
 
-	// the call and the clock
-	switch r.Intn(8) {
-	case 0, 1: // start-up inside the period: (first epoch of this period, notCurrentSlot)
-		in.Epoch, in.NotCur = cl, true
-		in.Cur = first*p.SPE + uint64(r.Intn(int(p.EPP*p.SPE)))
-		tag("call:startup-this-period")
-	case 2: // start-up shortly before the period
-		in.Epoch, in.NotCur = cl, true
-		back := uint64(r.Range(1, int(5*p.SPE)))
-		if back > F {
-			back = F
+		// the call and the clock
+		switch r.Intn(8) {
+		case 0, 1: // start-up inside the period: (first epoch of this period, notCurrentSlot)
+			in.Epoch, in.NotCur = cl, true
+			in.Cur = first*p.SPE + uint64(r.Intn(int(p.EPP*p.SPE)))
+			tag("call:startup-this-period")
+		case 2: // start-up shortly before the period
+			in.Epoch, in.NotCur = cl, true
+			back := uint64(r.Range(1, int(5*p.SPE)))
+			if back > F {
+				back = F
+			}
+			in.Cur = F - back
+			tag("call:startup-next-period")
+		case 3: // epoch ticker, five epochs ahead
+			in.Epoch, in.NotCur = first, false
+			if first >= 5 {
+				in.Cur = (first - 5) * p.SPE
+			} else {
+				in.Cur = 0
+			}
+			tag("call:ticker-next-period")
+		case 4: // at the fork epoch
+			in.Epoch, in.NotCur = p.Fork, false
+			in.Cur = p.Fork*p.SPE + uint64(r.Intn(2))
+			tag("call:fork-epoch")
+		case 5: // around the edges of the window
+			in.Epoch, in.NotCur = first+uint64(r.Intn(int(p.EPP))), r.Bool()
+			edges := []uint64{F, F + 1, E - 1, E, E + 1}
+			if F >= 1 {
+				edges = append(edges, F-1)
+			}
+			if F >= 2 {
+				edges = append(edges, F-2)
+			}
+			if E >= 2 {
+				edges = append(edges, E-2)
+			}
+			if E >= 3 {
+				edges = append(edges, E-3)
+			}
+			in.Cur = edges[r.Intn(len(edges))]
+			tag("call:edge")
+		default:
+			in.Epoch, in.NotCur = first+uint64(r.Intn(int(p.EPP))), r.Bool()
+			lo := uint64(0)
+			if first > p.EPP {
+				lo = (first - p.EPP) * p.SPE
+			}
+			in.Cur = lo + uint64(r.Intn(int(E+p.SPE-lo)))
+			tag("call:arbitrary")
 		}
-		in.Cur = F - back
-		tag("call:startup-next-period")
-	case 3: // epoch ticker, five epochs ahead
-		in.Epoch, in.NotCur = first, false
-		if first >= 5 {
-			in.Cur = (first - 5) * p.SPE
-		} else {
-			in.Cur = 0
+		if period == 0 {
+			tag("period0")
 		}
-		tag("call:ticker-next-period")
-	case 4: // at the fork epoch
-		in.Epoch, in.NotCur = p.Fork, false
-		in.Cur = p.Fork*p.SPE + uint64(r.Intn(2))
-		tag("call:fork-epoch")
-	case 5: // around the edges of the window
-		in.Epoch, in.NotCur = first+uint64(r.Intn(int(p.EPP))), r.Bool()
-		edges := []uint64{F, F + 1, E - 1, E, E + 1}
-		if F >= 1 {
-			edges = append(edges, F-1)
+		ce := in.Cur / p.SPE
+		if ce == 0 && in.Epoch/p.EPP == 0 && p.Fork == 0 {
+			tag("epoch0")
 		}
-		if F >= 2 {
-			edges = append(edges, F-2)
+		if ce == 1 && in.Epoch/p.EPP == 0 {
+			tag("period0-epoch1")
 		}
-		if E >= 2 {
-			edges = append(edges, E-2)
+		if ce < p.Fork {
+			tag("before-fork")
 		}
-		if E >= 3 {
-			edges = append(edges, E-3)
+		if ce == p.Fork && p.Fork > 0 {
+			tag("at-fork")
 		}
-		in.Cur = edges[r.Intn(len(edges))]
-		tag("call:edge")
-	default:
-		in.Epoch, in.NotCur = first+uint64(r.Intn(int(p.EPP))), r.Bool()
-		lo := uint64(0)
-		if first > p.EPP {
-			lo = (first - p.EPP) * p.SPE
+		if p.Fork > first && p.Fork < next {
+			tag("fork-mid-period")
 		}
-		in.Cur = lo + uint64(r.Intn(int(E+p.SPE-lo)))
-		tag("call:arbitrary")
+		lo, hi, ok = specWindow(p, in.Epoch, in.Cur)
+		if !ok {
+			tag("window:empty")
+		} else if hi-lo < 2 {
+			tag("window:last-two-slots")
+		}
+		if ok && lo == in.Cur && in.NotCur {
+			tag("window:starts-now-excluded")
+		}
+		if ok || attempt >= 4 || r.Chance(1, 5) {
+			break
+		}
 	}
-	if period == 0 {
-		tag("period0")
-	}
-	ce := in.Cur / p.SPE
-	if ce == 0 && in.Epoch/p.EPP == 0 && p.Fork == 0 {
-		tag("epoch0")
-	}
-	if ce == 1 && in.Epoch/p.EPP == 0 {
-		tag("period0-epoch1")
-	}
-	if ce < p.Fork {
-		tag("before-fork")
-	}
-	if ce == p.Fork && p.Fork > 0 {
-		tag("at-fork")
-	}
-	if p.Fork > first && p.Fork < next {
-		tag("fork-mid-period")
-	}
-	lo, hi, ok := specWindow(p, in.Epoch, in.Cur)
-	if !ok {
-		tag("window:empty")
-	} else if hi-lo < 2 {
-		tag("window:last-two-slots")
-	}
-	if ok && lo == in.Cur && in.NotCur {
-		tag("window:starts-now-excluded")
+
+	// realistic magnitudes (mainnet preset, Altair at epoch 0 or 74240, periods up to ~1800): a late
+	// start inside the last two epochs of a period, so that the window stays small
+	if r.Chance(1, 20) {
+		in.Tags = nil
+		p = p0
+		p.SPE, p.EPP = 32, 256
+		p.Fork = []uint64{0, 74240}[r.Intn(2)]
+		period := p.Fork/p.EPP + uint64(r.Range(0, 1500))
+		cl := period * p.EPP
+		if cl < p.Fork {
+			cl = p.Fork
+		}
+		E := (period + 1) * p.EPP * p.SPE
+		in.Par = p
+		in.Epoch, in.NotCur = cl, r.Bool()
+		in.Cur = E - uint64(r.Range(1, 70))
+		tag("mainnet-magnitude")
+		lo, hi, ok = specWindow(p, in.Epoch, in.Cur)
+		if !ok {
+			tag("window:empty")
+		} else if hi-lo < 2 {
+			tag("window:last-two-slots")
+		}
+		if ok && lo == in.Cur && in.NotCur {
+			tag("window:starts-now-excluded")
+		}
 	}
 
 	// members
